@@ -29,8 +29,9 @@ modulus only.
 
 What is NOT claimed: that the single `dx` reported by the FFT route describes a non-square padded grid (it
 cannot: the two axes have different spacings lam f/(n_axis dx_p)).  For non-square pupils only the two
-necessary conditions are checked: the reported dx is the true spacing of one of the two axes, and
-focus(Q=1) followed by unfocus(Q=1) reports the original pupil spacing again.
+documented convention of HEAD is checked: the reported dx is the spacing of axis 1 (columns / x) for tall and wide arrays, a pure
+x tilt lands at k lam f/D_x in the reported coordinates (and the reverse for a point source displaced along x), and
+focus followed by unfocus(Q=1) reports the original pupil spacing again.
 """
 import math
 
@@ -47,7 +48,9 @@ ASSUMPTIONS = [
     'sign convention: pupil phase exp(+2 pi i k x/D) <-> focal position +k lam f/D, from the documented forward kernel exp(-2 pi i ...)',
     'shift direction from the documented mdft convention U -> U - s: image content moves by +s output units; shifted fields are judged in modulus (a unit-modulus factor per output sample is left free, as in C01)',
     'samples_out tuples are in array-axis order (rows, columns), as the engines treat them (the Wavefront docstring says (x, y); the order of a sample-count tuple is not part of C03)',
-    'FFT route: padded size ceil(N*Q) (pad2d, verified by C04); non-square pupils through the FFT route are outside the claim except for two necessary conditions (see module docstring)',
+    'FFT route: the oracle is evaluated on whatever padded grid comes back; for NON-SQUARE arrays one reported dx cannot describe both axes: the harness holds the FFT route to the convention HEAD documents '
+    '(pupil_sample_to_psf_sample: "samples ... present in both planes", called with data.shape[1]) -- the reported dx is the spacing of axis 1 (columns / x), lam f/(n_cols_padded dx), for tall and wide arrays -- '
+    'as the documented convention, not as a physical necessity; nothing is claimed about the y axis of a non-square FFT grid',
     'normalisation: the energy preserving 1/sqrt(N Q) per axis of C01 is used as the amplitude of the closed form',
 ]
 
@@ -368,32 +371,189 @@ def run_fft_focus(case, seed, R):
 
 
 def run_fft_nonsquare(case, seed, R):
-    """not claimed: that one dx describes a non-square grid.  Claimed: it is the true spacing of one of the axes, and
-    focus(Q=1) . unfocus(Q=1) reports the pupil spacing again"""
+    """not claimed: that one dx describes both axes of a non-square grid.  Checked: the DOCUMENTED convention of HEAD -- the
+    reported dx is the spacing of axis 1 (columns / x), lam f/(n_cols_padded dx_in), for tall and wide arrays alike, so a
+    pure x tilt lands at k lam f/D_x in the reported coordinates and a point source displaced along x un-focuses to the
+    x slope per reported pupil sample -- and focus . unfocus(Q=1) reports the pupil spacing again"""
     n0, n1 = case['n']
     Q = case['Q']
     wvl, efl, dxp = case['units']
-    p = tilted_pupil(n0, n1, 1, -1)
-    w = Wavefront(p, wvl, dxp, 'pupil')
-    out = R.call(w.focus, efl, Q)
+    cls = 'tall' if n0 > n1 else 'wide'
+    dx = None
+    for kx in (1, -2, 0.5):
+        p = tilted_pupil(n0, n1, kx, 0)
+        w = Wavefront(p, wvl, dxp, 'pupil')
+        out = R.call(w.focus, efl, Q)
+        if out is FAILED:
+            continue
+        sig = f'Wavefront.focus:nonsquare:{cls}'
+        dx = scalar(R, getattr(out, 'dx', None), sig + ':dx')
+        a = as_array(R, getattr(out, 'data', None), sig)
+        if dx is None or a is None:
+            continue
+        p0, p1 = a.shape
+        if p0 < n0 or p1 < n1:
+            R.violation(sig + ':shape', f'focal array {a.shape} from a {n0}x{n1} pupil')
+            continue
+        want_dx = wvl * efl / (p1 * dxp)
+        R.expect(abs(dx - want_dx) <= 8 * EPS * want_dx, sig + ':dx',
+                 f'reported dx {dx} is not the x (columns) spacing lam f/(n_cols dx) = {want_dx} of the {a.shape} focal grid (rows: {wvl * efl / (p0 * dxp)})')
+        inten = R.call(lambda: out.intensity)
+        cv = None if inten is FAILED else coord_vectors(R, inten, a.shape, sig)
+        if cv is None:
+            continue
+        # the row through the y origin (t_y = 0 exactly, whatever the y spacing): Dirichlet kernel along x at the reported x
+        row = p0 // 2
+        want = (n0 / math.sqrt(p0)) * (1 / math.sqrt(p1)) * dirichlet(n1, kx / n1 - cv[0][row, :] * dxp / (wvl * efl))
+        R.expect_close(np.abs(a[row, :]), want, tol_for(n0, n1, 1 / math.sqrt(p0 * p1), n1 / 2 + 4), sig + ':x-spot',
+                       f'|field| along the x axis vs closed-form kernel centred at {kx} lam f/D_x in the reported coordinates (reported dx={dx:.6g})')
+        back = R.call(out.unfocus, efl, 1)
+        if back is not FAILED:
+            d2 = scalar(R, getattr(back, 'dx', None), 'Wavefront.unfocus:nonsquare:dx')
+            if d2 is not None:
+                # the true pupil spacing of the padded grid is dxp again along both axes
+                R.expect(abs(d2 - dxp) <= 16 * EPS * dxp, 'Wavefront.focus-unfocus:nonsquare:dx-roundtrip',
+                         f'focus(Q={Q}) then unfocus(Q=1) reports pupil dx {d2}, the field lives on dx {dxp}')
+    # reverse: a point source displaced along x in a non-square focal array
+    dxf = wvl * efl / (n1 * dxp)
+    for j in sorted({0, n1 - 1, min(n1 - 1, n1 // 2 + 1)}):
+        d = np.zeros((n0, n1), dtype=complex)
+        d[n0 // 2, j] = 1
+        x0 = (j - n1 // 2) * dxf
+        sig = f'Wavefront.unfocus:nonsquare:{cls}'
+        out = R.call(Wavefront(d, wvl, dxf, 'psf').unfocus, efl, Q)
+        if out is FAILED:
+            continue
+        dp = scalar(R, getattr(out, 'dx', None), sig + ':dx')
+        a = as_array(R, getattr(out, 'data', None), sig)
+        if dp is None or a is None or a.shape[1] < 2:
+            continue
+        want_dp = wvl * efl / (a.shape[1] * dxf)
+        R.expect(abs(dp - want_dp) <= 8 * EPS * want_dp, sig + ':dx', f'reported pupil dx {dp} is not the x (columns) spacing lam f/(n_cols dx_f) = {want_dp} of the {a.shape} grid')
+        amp = 1 / math.sqrt(a.shape[0] * a.shape[1])
+        tol = 1e3 * EPS * (2 + n1)
+        if R.expect_close(np.abs(a), np.full(a.shape, amp), tol * amp, sig + ':modulus', 'a point source must un-focus to a uniform modulus'):
+            rx = a[:, 1:] / a[:, :-1]
+            R.expect_close(rx, np.full(rx.shape, np.exp(2j * np.pi * dp * x0 / (wvl * efl))), tol, sig + ':slope-x',
+                           f'phase step between x neighbours vs exp(+2 pi i dx_reported x0/(lam f)), x0={x0:.6g}um')
+    R.nontrivial()
+    R.outcome('fft:nonsquare:' + cls)
+
+
+# ---------------------------------------------------------------------------------------------
+# shared chirp-Z / matrix-DFT executors across propagations of different sizes (history)
+
+def _fast_len(n):
+    try:
+        from scipy.fft import next_fast_len
+        return int(next_fast_len(int(n)))
+    except Exception:   # noqa
+        return 1 << int(math.ceil(math.log2(n)))
+
+
+class SizeState:
+    def __init__(self, init):
+        self.init = init
+        self.last = None
+        self.done = []
+
+
+def s_fresh(init, seed):
+    reset_executors(64)          # the ONLY clear(): inside a history the shared executors keep what earlier calls left
+    _scrub_module_state()
+    return SizeState(init)
+
+
+def s_events(init, hist, st):
+    return init['events']
+
+
+def s_apply(st, ev, R):
+    # ev = [direction, method, n_in, n_out]; spacings are FIXED by the init so that dx_in dx_out/(lam f) is the same for every event
+    direction, method, n, M = ev
+    wvl, efl, dxp, dxf = st.init['wvl'], st.init['efl'], st.init['dxp'], st.init['dxf']
+    k = st.init['k']
+    if direction == 'focus':
+        p = tilted_pupil(n, n, k[0], k[1])
+        out = R.call(Wavefront(p, wvl, dxp, 'pupil').focus_fixed_sampling, efl, dxf, M, method=method, sig=f'sizes:focus:{method}:exception')
+    else:
+        d = np.zeros((n, n), dtype=complex)
+        j = (n // 2 + k[1], n // 2 + k[0])
+        d[j] = 1
+        out = R.call(Wavefront(d, wvl, dxf, 'psf').unfocus_fixed_sampling, efl, dxp, M, method=method, sig=f'sizes:unfocus:{method}:exception')
+    st.last = (ev, out)
+    st.done.append([ev[0], ev[1], ev[2], ev[3]])
+    return st
+
+
+def s_check(st, init, hist, R):
+    if st.last is None:
+        return
+    (direction, method, n, M), out = st.last
     if out is FAILED:
         return
-    dx = scalar(R, getattr(out, 'dx', None), 'Wavefront.focus:nonsquare:dx')
-    a = as_array(R, getattr(out, 'data', None), 'Wavefront.focus:nonsquare')
-    if dx is None or a is None:
+    wvl, efl, dxp, dxf, k = init['wvl'], init['efl'], init['dxp'], init['dxf'], init['k']
+    sig = f'sizes:{direction}:{method}:after-other-sizes' if len(hist) > 1 else f'sizes:{direction}:{method}:first'
+    a = as_array(R, getattr(out, 'data', None), sig)
+    if a is None:
         return
-    true = [wvl * efl / (s * dxp) for s in a.shape]
-    R.expect(any(abs(dx - t) <= 8 * EPS * t for t in true), 'Wavefront.focus:nonsquare:dx',
-             f'reported dx {dx} is the spacing of neither axis {true} of the {a.shape} focal grid')
-    back = R.call(out.unfocus, efl, 1)
-    if back is not FAILED:
-        d2 = scalar(R, getattr(back, 'dx', None), 'Wavefront.unfocus:nonsquare:dx')
-        if d2 is not None:
-            # the true pupil spacing of the padded grid is dxp again along both axes
-            R.expect(abs(d2 - dxp) <= 16 * EPS * dxp, 'Wavefront.focus-unfocus:nonsquare:dx-roundtrip',
-                     f'focus(Q={Q}) then unfocus(Q=1) reports pupil dx {d2}, the field lives on dx {dxp}')
-    R.nontrivial()
-    R.outcome('fft:nonsquare')
+    if a.shape != (M, M):
+        R.violation(sig, f'shape {a.shape} != {(M, M)}')
+        return
+    amp = dxp * dxf / (wvl * efl)
+    if direction == 'focus':
+        cv = coord_vectors(R, out.intensity, a.shape, sig)
+        if cv is None:
+            return
+        want = focal_modulus(n, n, dxp, wvl, efl, k[0], k[1], cv[0], cv[1], dxf)
+        extent = (M / 2) * dxf * dxp / (wvl * efl) * n + 2 + max(abs(k[0]), abs(k[1]))
+        R.expect_close(np.abs(a), want, tol_for(n, n, amp, extent), sig,
+                       f'{method}: pupil {n} -> {M} samples after {hist[:-1]}: |field| vs closed-form kernel centred at k lam f/D on the reported grid')
+    else:
+        x0, y0 = k[0] * dxf, k[1] * dxf
+        xp = ax(M) * dxp
+        arg = 2 * np.pi * (xp[None, :] * x0 + xp[:, None] * y0) / (wvl * efl)
+        R.expect_close(a, amp * np.exp(1j * arg), 1e3 * EPS * amp * (2 + float(np.max(np.abs(arg)))), sig,
+                       f'{method}: focal {n} -> pupil {M} samples after {hist[:-1]}: field of a point source vs exp(+2 pi i x x0/(lam f))')
+    R.nontrivial(len(hist) > 1)
+    R.outcome(f'{direction}:{method}')
+
+
+def s_canon(st):
+    """the shared executors remember every distinct call made so far (their cache keys); the next answer can depend on that set
+    and, for a cache that keeps the latest entry per partial key, on the order -> the ordered list of distinct calls"""
+    seen, out = set(), []
+    for e in st.done:
+        t = tuple(e)
+        if t not in seen:
+            seen.add(t)
+            out.append(t)
+    return tuple(out)
+
+
+def size_inits(quick):
+    """per init: one fixed pair of spacings and a family of sizes that share a fast FFT length n_in + n_out - 1 -> K;
+    events: the fixed pupil to every output count, and every pupil size to the fixed output count, both methods (czt shares K, mdft as control)"""
+    fams = [
+        # (fixed n, outputs) ; (inputs, fixed M)
+        {'n': 5, 'outs': [9, 10, 8], 'ins': [4, 5], 'M': 10},        # 5+9-1 = 13 -> 14 = 5+10-1
+        {'n': 9, 'outs': [15, 16], 'ins': [8, 9], 'M': 16},          # 23 -> 24
+        {'n': 10, 'outs': [28, 29, 31], 'ins': [10, 11], 'M': 28},   # 37, 38, 40 -> 40 ; 10+28-1 = 37, 11+28-1 = 38 -> 40
+    ]
+    if not quick:
+        fams.append({'n': 48, 'outs': [72, 66, 67, 70], 'ins': [46, 48], 'M': 72})   # all K = 120
+    inits = []
+    for f in fams:
+        wvl, efl, dxp = 0.5, 100.0, 0.1
+        dxf = 0.73 * wvl * efl / (f['n'] * dxp)
+        ev = []
+        for method in ('czt', 'mdft'):
+            ev += [['focus', method, f['n'], M] for M in f['outs']]
+            ev += [['focus', method, n, f['M']] for n in f['ins'] if [n, f['M']] not in [[f['n'], M] for M in f['outs']]]
+        ev += [['unfocus', 'czt', f['n'], M] for M in f['outs'][:2]]
+        inits.append({'wvl': wvl, 'efl': efl, 'dxp': dxp, 'dxf': dxf, 'k': [1, -2], 'events': ev,
+                      'fast_lens': sorted({_fast_len(e[2] + e[3] - 1) for e in ev})})
+    return inits
 
 
 # ---------------------------------------------------------------------------------------------
@@ -769,7 +929,8 @@ def plan(tier, seed):
                   'Wavefront.focus -> |field| and intensity vs the closed-form Dirichlet kernel at the coordinates intensity.x/.y it reports (amplitude not derived from the reported dx), '
                   'grids vs reported dx, and both fixed-sampling methods at the reported dx reproduce the FFT field; every pupil input variant of the dtype alphabet for every tilt.' + DT_RULE, reset=rs),
         ScopeUnit('fft_nonsquare', ns_cases, run_fft_nonsquare,
-                  'non-square pupils in [2..9]^2 x Q x units: only the necessary conditions (reported dx is the true spacing of one axis; focus then unfocus(Q=1) reports the pupil dx again)', reset=rs),
+                  'non-square pupils in [2..9]^2 (tall and wide) x Q x units: the documented convention -- reported dx = x (columns) spacing lam f/(n_cols_padded dx); x tilts k in {1,-2,0.5}: |field| along the x axis vs the closed form at the '
+                  'reported coordinates; point sources displaced along x un-focus to the x slope per reported pupil sample; focus then unfocus(Q=1) reports the pupil dx again', reset=rs),
         ScopeUnit('fixed_focus', ff_cases, run_fixed_focus,
                   f'pupil shapes [2..9]^2 (square and non-square) x 8 unit sets x requested dx in {DXRELS} x native x samples_out in {SAMP} (per axis) x shift in {SHIFTS} output samples (x,y){thin}; '
                   f'inside every case all {len(TILTS)} tilts x {{mdft, czt}} x {{function, Wavefront method}}: |field| vs closed-form kernel centred at k lam f/D_axis on the requested grid '
@@ -786,6 +947,10 @@ def plan(tier, seed):
                   f'focal shapes [2..9]^2 x units x requested pupil dx in {DXRELS} x dx_p x samples_out x shift{thin}; inside: point-source positions (every position in the thorough tier; quick: '
                   'the two axes through the origin and both diagonals) x {mdft, czt}: unshifted single source -> slope per axis + full complex field; origin + source pair through the Wavefront method -> '
                   'complex field (unshifted) or modulus 2|cos| displaced by the shift.' + DT_RULE, reset=rs),
+        HistoryUnit('size_history', size_inits(quick), s_fresh, s_events, s_apply, s_check, s_canon, 2 if quick else 3,
+                    'BFS (depth 2 quick = every ordered pair, 3 thorough) on the SHARED czt / mdft executors without clear(): per initial state one fixed pair of spacings and a family of sizes whose '
+                    'n_in + n_out - 1 share a fast FFT length (5->{9,10,8}, 9->{15,16}, 10->{28,29,31}; thorough also 48->{72,66,67,70}); events: fixed pupil -> every output count, every pupil size -> fixed output count, '
+                    'both methods, plus czt unfocus; canonical state = ordered list of distinct calls made; invariant after every call: the spot is at k lam f/D on the reported grid (closed form), the un-focused point source has the closed-form tilt', reset=rs),
         HistoryUnit('coords_history', [{'n': 4, 'Q': 2}, {'n': 5, 'Q': 1}, {'n': 3, 'Q': 1.5}], h_fresh, h_events, h_apply, h_check, h_canon, hdepth,
                     f'BFS to depth {hdepth} over events [focus:A, focus:B (same shape and dx, other tilt), focus:C (other shape), fixed:A (same grid through focus_fixed_sampling), '
                     'read:first / read:last (.intensity.x/.y of a held result handed to the caller), edit-in-place (the caller re-references and rescales the arrays it was handed)]; '
